@@ -30,6 +30,6 @@ for p in "$@"; do
   res="$res $p:violations=$out"
 done
 rm -rf $V/evidence; mv "$evbak" $V/evidence
-(cd $V && ./check setup >/dev/null 2>&1)
+[ -n "${SKIP_RESTORE:-}" ] || (cd $V && ./check setup >/dev/null 2>&1)   # SKIP_RESTORE=1: scratch copies of /verif need no rebuild for /repo
 echo "RESULT patch=$(basename $patch) suite_rc=$suite_rc($(tail -1 /tmp/suite_out_$$)) demo_clean_rc=$clean_rc demo_mutant_rc=$mut_rc checks:$res"
 rm -f /tmp/demo_out_$$ /tmp/suite_out_$$ /tmp/apply_err_$$
